@@ -21,7 +21,8 @@ EXTENDS Integers, Sequences, FiniteSets, TLC, Json
 CONSTANTS Universe,        \* set of entry records [id, kind, ext, inside, depth]
           MaxEntries,      \* layouts are subsets of Universe with at most this many optional entries
           ExtLists,        \* set of extension lists; <<"default">> stands for an omitted key
-          SourceDirs,      \* "rel", "dotrel", "abs"
+          SourceDirs,      \* spelling of source_dir: "rel" (src), "dotrel" (./src), "abs", "updown" (../<project>/src),
+                           \* "hidden" (the source directory is called .src)
           Invocations      \* <<cwd, spelling>> with cwd in {"cfgdir","parent","root"}, spelling in {"bare","rel","abs"}
 
 EffectiveExts(x) == IF x = <<"default">> THEN {"rs"} ELSE {x[i] : i \in 1..Len(x)}
